@@ -1349,6 +1349,40 @@ def rule_sole_candidate(ctx: Ctx, prog: Program) -> None:
                 continue
             n += 1
             ctx.fn(fn.fq)
+            # every scanned variable is examined: the counting test is not the `else` side of a branch that has just stored the cell it reads
+            def _anc(stmts: List[ast.stmt], chain: List[Tuple[ast.If, str]]) -> Optional[List[Tuple[ast.If, str]]]:
+                for st_ in stmts:
+                    if st_ is test_node:
+                        return chain
+                    if isinstance(st_, ast.If):
+                        for side in ("body", "orelse"):
+                            r_ = _anc(getattr(st_, side), chain + [(st_, side)])
+                            if r_ is not None:
+                                return r_
+                    elif isinstance(st_, (ast.For, ast.While)):
+                        r_ = _anc(st_.body, chain)
+                        if r_ is not None:
+                            return r_
+                return None
+            chain = _anc(loop.body, []) or []
+            read_cells = {ast.unparse(x) for x in ast.walk(test_node.test) if isinstance(x, ast.Subscript)}
+            bypass = None
+            for anc, side in chain:
+                if side != "orelse":
+                    continue
+                for s_ in ast.walk(ast.Module(body=anc.body, type_ignores=[])):
+                    if isinstance(s_, (ast.Assign, ast.AugAssign)):
+                        for t_ in (s_.targets if isinstance(s_, ast.Assign) else [s_.target]):
+                            if isinstance(t_, ast.Subscript) and ast.unparse(t_) in read_cells:
+                                bypass = (anc, ast.unparse(t_))
+            if bypass is not None:
+                ctx.violation("R-SOLE-CANDIDATE", fn.path, fn.name, "candidate-test-bypassed", f"{fn.path}:{test_node.lineno}",
+                              f"{fn.name}: the test that counts the candidates (`{ast.unparse(test_node.test)}`) is the else side of `if {ast.unparse(bypass[0].test)}`, "
+                              f"whose branch has just stored `{bypass[1]}` - the very cell the test reads: a variable whose bound was cut in this execution is not "
+                              "examined, too few candidates are counted, the 'sole' one is forced and solutions in which the other variable is the aggregate "
+                              "are removed")
+            else:
+                ctx.ok("R-SOLE-CANDIDATE", f"{fn.name}: every scanned variable reaches the candidate test with its current bounds", nontrivial=False)
             t_txt = ast.unparse(_positional(fn, T))
             for s_ in forced:
                 f_txts = {ast.unparse(x) for x in ast.walk(_positional(fn, s_.value)) if isinstance(x, ast.expr)}
